@@ -12,7 +12,7 @@ import (
 // Rules added after the first round of independently seeded changes (DESIGN.md section 8).
 
 func init() {
-	registerRule("name-verbatim", 4, "decoders store user-chosen member names exactly as decoded (no case folding or other rewriting on the way into the model)", ruleNameVerbatim)
+	registerRule("name-verbatim", 4, "decoders store, and encoders emit, user-chosen member names exactly as they are (no case folding or other rewriting on the way into or out of the model)", ruleNameVerbatim)
 	registerRule("opts-copy-complete", 1, "an ExpandOptions value derived from another one carries every option", ruleOptsCopyComplete)
 	registerRule("resolve-strict", 8, "on the Resolve* side an error is never filtered through the continue-on-error predicate", ruleResolveStrict)
 	registerRule("continue-honoured", 4, "inside the expander every error of following a $ref passes through the stop predicate, so ContinueOnError is honoured at every position", ruleContinueHonoured)
@@ -95,11 +95,12 @@ func (c *Ctx) keyStoredVerbatim(fd *ast.FuncDecl, key types.Object, depth int) (
 func ruleNameVerbatim(c *Ctx) {
 	const rule = "name-verbatim"
 	for _, fd := range c.allFuncDecls() {
-		if fd.Recv == nil || fd.Body == nil || fd.Name.Name != "UnmarshalJSON" {
+		if fd.Recv == nil || fd.Body == nil || (fd.Name.Name != "UnmarshalJSON" && fd.Name.Name != "MarshalJSON") {
 			continue
 		}
 		fn := c.funcName(fd)
-		// range loops over a map decoded from the input: the key variable is a user-chosen member name
+		// range loops over a map decoded from the input (or, in an encoder, over a map of the model):
+		// the key variable is a user-chosen member name
 		ast.Inspect(fd.Body, func(n ast.Node) bool {
 			rs, ok := n.(*ast.RangeStmt)
 			if !ok {
